@@ -13,7 +13,15 @@
 //!   whiten     a catalogue of full-rank 6 / 8 / 12-row matrices x every per-column image
 //!              {id, +1001, x1e-3} x global scale {1, 1e-10, 1e9} x PCA / ZCA / Cholesky;
 //!   dataset    dataset forms (1-D / 2-D targets, weights, feature and target names, owned / view);
-//!   errors     empty training data, flipped min-max range, wrong column count.
+//!   errors     empty training data, flipped min-max range, wrong column count;
+//!   layout     training pool x unseen matrices with every record matrix held column-major, as the owned
+//!              copy of a transposed feature-major view and of a reversed-row view (+ the dataset forms):
+//!              all oracles, plus bit-identity with the standard-layout result of the same fitted object;
+//!   extreme    every 2x2 / 1x3 / 3x1 matrix over a 9-letter alphabet of subnormals, the smallest normal,
+//!              a value with a subnormal square, +-1 and values next to the top of the range (per float
+//!              type): norm scalers, max-abs, min-max;
+//!   long       1025 and 4097 rows x 2 columns cycling through the alphabet, standard and column-major:
+//!              all oracles, row-wise map on a handful of rows.
 //! All of it in f32 and f64. Oracle = plain f64 recomputation (run.rs), no linfa code.
 
 mod run;
@@ -26,6 +34,12 @@ use std::sync::Mutex;
 
 const ALPHABET: [f64; 5] = [0.0, 1.0, -2.0, 1001.0, 1e-3];
 const FLOATS: [&str; 2] = ["f64", "f32"];
+/// non-standard memory layouts of the record matrices (see run::arr_l)
+const LAYOUTS: [&str; 3] = ["col_major", "transposed_view", "reversed_rows_view"];
+/// extreme-magnitude alphabets: subnormals, the smallest normal, a value whose square is subnormal,
+/// ordinary values and values next to the top of the range — per float type
+const EXTREME_F64: [f64; 9] = [0.0, 1e-310, -2e-310, 2.2250738585072014e-308, 1e-160, 1.0, -1.0, 1e300, -1e300];
+const EXTREME_F32: [f64; 9] = [0.0, 1e-40, 2e-39, -1e-39, 1.17549435e-38, 1e-21, 1.0, 1e38, -1e38];
 
 enum Job {
     /// matrices start..end (base-5 digits of the index = the entries) of shape n x p
@@ -49,7 +63,21 @@ fn groups(g: &[&str]) -> Vec<String> {
 }
 
 fn fit_case(family: &str, float: &str, p: usize, train: Mat, tests: Vec<Mat>, full: bool, g: &[&str]) -> Case {
-    Case { kind: "fit".into(), family: family.into(), float: float.into(), p, train, tests, full_rowwise: full, groups: groups(g), cfg: None, ds: None }
+    Case {
+        kind: "fit".into(),
+        family: family.into(),
+        float: float.into(),
+        p,
+        train,
+        tests,
+        full_rowwise: full,
+        groups: groups(g),
+        cfg: None,
+        ds: None,
+        layout: standard_layout(),
+        cfgs: vec![],
+        rowwise_rows: vec![],
+    }
 }
 
 fn row_pool(p: usize, which: &str) -> Vec<Vec<f64>> {
@@ -192,7 +220,8 @@ fn main() {
          tiny = every matrix (n in {2,3}, p in {1,2}) whose columns are base + delta*mask, base in {0,1,1001}, delta in {1e-12,1e-18,2^-52}, every 0/1 mask, or constant, or [0,1,-2]; \
          pairs = every (A, B) with A from the training pool (all multisets of 1..3 (quick) / 1..4 (thorough) of 5 rows, one 4-row matrix, the 6-row unscaled catalogue members) and B from the unseen pool \
          (all multisets of 0..3 / 0..4 of 5 other rows, one 4-row matrix); norm = norm scalers on every pool matrix; whiten = catalogue (2 base designs x n in {6,8,12} x 3^p column images x 3 global scales); \
-         dataset = 2 matrices per p x 32 dataset forms; errors = empty training data for p in 0..3, wrong width 1..4. Every family in f64 and f32 and through every configuration: \
+         dataset = 2 matrices per p x 32 dataset forms x 4 memory layouts; layout = training pool (multisets of 2..3 rows, the 4-row matrix, 6-row lattice catalogue members) x unseen matrices x {col_major, transposed_view, reversed_rows_view}; \
+         extreme = every 2x2, 1x3, 3x1 matrix over 9 extreme-magnitude letters per float type (norm scalers, max-abs, min-max only); long = 1025 and 4097 rows x 2 columns, standard and column-major (row-wise check on 9 fixed rows); errors = empty training data for p in 0..3, wrong width 1..4. Every family in f64 and f32 and through every configuration: \
          standard / no-mean / no-std / neither, min-max (0,1), (-1,1), (2,5), (3,3), flipped (5,2), max-abs, norm l1 / l2 / max, whitening PCA / ZCA / Cholesky. \
          One evaluation = one (training matrix [, unseen matrix], float type, configuration) run through all its oracles. Non-trivial: linear scalers = training matrix with >= 2 distinct rows and a non-constant column \
          (or an unseen matrix, or an expected error); norm scalers = a non-zero row; whiteners = full-rank training data with a verdict; dataset / error menu = all. \
@@ -207,6 +236,9 @@ fn main() {
     ctx.assume("row-wise map: bit-for-bit equality of transform(B) rows with transform of single rows, of every row permutation and of every row subset (n <= 4: all of them; longer matrices: reversal, rotation, drop-first, every other row, empty)");
     ctx.assume("whitening: sample covariance (n-1) of the whitened training data == identity within 1e-8 (f64) / 1e-3 (f32) + 64*eps_F*cond(cov) + 16*eps_F*max|x|/sqrt(lambda_min); full rank = n > p and equilibrated centred matrix of rank p; tolerance > 0.05 => indeterminate; rank-deficient training data => out of domain (fit outcome only tallied)");
     ctx.assume("wrong column count: LinearScaler::transform documents a panic, which is what is checked; nothing is documented for whiteners (not checked)");
+    ctx.assume("memory layout: one fitted object applied to the same logical matrix in standard layout and in another layout must give bit-identical values (<scaler>.layout_dependence); accessors of a fit on another layout are only tallied (ndarray sums a lane in a stride-dependent order)");
+    ctx.assume("extreme magnitudes: non-finite output for finite input is always a violation; reference l2 norm is computed on the max-scaled row; l2 rows whose sum of squares (in the subject's float type) is below MIN_POSITIVE/eps get the extra tolerance p*min_subnormal/sum and are indeterminate when that exceeds 1e-2; rows whose squares underflow to 0 / overflow to inf and come back unchanged / all-zero get the two narrow norm_scaler.l2.squares_* signatures; tolerances of the affine-map and x/norm checks carry an absolute floor of a few smallest subnormals");
+    ctx.assume("accumulation length: the cond-scaled tolerances of standard scaling and whitening are multiplied by max(1, n/8)");
     ctx.assume("linfa-preprocessing is built as the repository configures it: pure-Rust linfa-linalg, no BLAS feature");
     ctx.assume("whiteners are fitted only on full-rank training data (and on empty data, which must be an error): nothing is stated for rank-deficient data, and Whitener::zca().fit on a single row with >= 3 columns does not terminate (NaN covariance fed to linfa-linalg's uncapped SVD loop); a watchdog turns any job running > 150 s into a MACHINERY-ERROR naming the case");
     ctx.assume("signature classification only (never a verdict): a PCA / ZCA covariance violation is labelled *.inaccurate_svd_of_linfa_linalg when linfa-linalg's SVD of the very matrix the subject hands to it has a relative reconstruction residual > 64 eps_F; the two clamp signatures are assigned only when the eigenvalues of the observed covariance match the closed form of the clamp");
@@ -296,10 +328,82 @@ fn main() {
                         full_rowwise: false,
                         groups: groups(g),
                         cfg: None,
-                        ds: Some(ds),
+                        ds: Some(ds.clone()),
+                        layout: standard_layout(),
+                        cfgs: vec![],
+                        rowwise_rows: vec![],
                     }));
                     dataset_cases += 1;
+                    // the same dataset form with the records held in the other memory layouts
+                    for lay in LAYOUTS {
+                        jobs.push(Job::One(Case {
+                            kind: "dataset".into(),
+                            family: "layout:dataset".into(),
+                            float: f.into(),
+                            p,
+                            train: m.clone(),
+                            tests: vec![],
+                            full_rowwise: false,
+                            groups: groups(g),
+                            cfg: None,
+                            ds: Some(ds.clone()),
+                            layout: lay.to_string(),
+                            cfgs: vec![],
+                            rowwise_rows: vec![],
+                        }));
+                        dataset_cases += 1;
+                    }
                 }
+            }
+        }
+    }
+    // ---- layout family: training pool x a few unseen matrices x the three non-standard layouts
+    let mut layout_cases = 0u64;
+    for p in 1..=3usize {
+        let mut train_pool = matrix_pool(p, "train", 2, 3);
+        for (tag, cp, m) in &cat {
+            if *cp == p && m.len() == 6 && tag.ends_with("scale1e0") && tag.contains("lattice") {
+                train_pool.push(m.clone());
+            }
+        }
+        let unseen: Vec<Mat> = matrix_pool(p, "test", 2, 3).into_iter().step_by(7).collect();
+        for lay in LAYOUTS {
+            for f in FLOATS {
+                for a in &train_pool {
+                    let mut c = fit_case(&format!("layout:{}", lay), f, p, a.clone(), unseen.clone(), false, &["linear", "norm", "whiten"]);
+                    c.layout = lay.to_string();
+                    jobs.push(Job::One(c));
+                    layout_cases += 1;
+                }
+            }
+        }
+    }
+    ctx.extra("layout_family_cases", json!(layout_cases));
+    // ---- extreme-magnitude family: every 2x2, 1x3 and 3x1 matrix over the 9-letter alphabet of the float type
+    let mut extreme_cases = 0u64;
+    for (f, alpha) in [("f64", EXTREME_F64), ("f32", EXTREME_F32)] {
+        for (n, p) in [(2usize, 2usize), (1, 3), (3, 1)] {
+            for seq in en::sequences(n * p, alpha.len()) {
+                let m: Mat = (0..n).map(|i| (0..p).map(|j| alpha[seq[i * p + j]]).collect()).collect();
+                let mut c = fit_case("extreme", f, p, m, vec![], false, &["linear", "norm"]);
+                c.cfgs = ["maxabs", "minmax_0_1", "minmax_-1_1", "minmax_2_5", "norm_l1", "norm_l2", "norm_max"].iter().map(|s| s.to_string()).collect();
+                jobs.push(Job::One(c));
+                extreme_cases += 1;
+            }
+        }
+    }
+    ctx.extra("extreme_family_cases", json!(extreme_cases));
+    // ---- long family: more than 1024 and more than 4096 rows, values cycling through the alphabet
+    for n in [1025usize, 4097] {
+        let m: Mat = (0..n).map(|i| vec![ALPHABET[i % 5], ALPHABET[(i * 7 + i / 3) % 5]]).collect();
+        let rows = vec![0, 1, 2, 511, 1023, 1024, n / 2, n - 2, n - 1];
+        let unseen: Mat = (0..n).map(|i| vec![ALPHABET[(i + 2) % 5] * 1.5 - 0.25, ALPHABET[(i * 3 + 1) % 5] + 7.0]).collect();
+        for lay in ["standard", "col_major"] {
+            for f in FLOATS {
+                let mut c = fit_case(&format!("long:{}", lay), f, 2, m.clone(), vec![unseen.clone()], false, &["linear", "norm", "whiten"]);
+                c.layout = lay.to_string();
+                c.rowwise_rows = rows.clone();
+                jobs.push(Job::One(c));
             }
         }
     }
@@ -352,7 +456,7 @@ fn main() {
             std::time::Instant::now(),
             match job {
                 Job::Alphabet { n, p, start, end, .. } => format!("alphabet matrices {}x{} #{}..{}", n, p, start, end),
-                Job::One(c) => serde_json::to_string(&json!({"family": c.family, "float": c.float, "p": c.p, "train": c.train})).unwrap(),
+                Job::One(c) => serde_json::to_string(&json!({"family": c.family, "float": c.float, "layout": c.layout, "p": c.p, "rows": c.train.len(), "train_first_rows": c.train.iter().take(8).collect::<Vec<_>>()})).unwrap(),
             },
         ));
         let mut cnt = Cnt::default();
@@ -374,7 +478,7 @@ fn main() {
             }
             Job::One(case) => {
                 cnt.merge(run_case(case, &mut viols));
-                ctx.sample(|| json!({"family": case.family, "kind": case.kind, "float": case.float, "train": case.train, "unseen_matrices": case.tests.len(), "dataset_form": case.ds}));
+                ctx.sample(|| json!({"family": case.family, "kind": case.kind, "float": case.float, "layout": case.layout, "rows": case.train.len(), "train_first_rows": case.train.iter().take(6).collect::<Vec<_>>(), "unseen_matrices": case.tests.len(), "dataset_form": case.ds}));
             }
         }
         ctx.evals(cnt.evals, cnt.nontrivial);
